@@ -325,3 +325,124 @@ Proof.
       cbn [b2z]. unfold fsr_wf in *. change (cr_bytes []) with 0%N. change (@lenN (list N) []) with 0%N.
       repeat split; try lia; try (intros; assumption); try discriminate.
 Qed.
+
+(* what holds of EVERY result of the HEVC decoder, error paths included (Go returns the partly filled
+   record together with the error; `dropped` = units appended to the array abandoned by the early return) *)
+Definition hevc_full_bounds (data : list N) (r : hevc_rec) (e : bool) (t : N) (dropped : list (list N)) : Prop :=
+  (lenN (hr_arrays r) <= 255)%N /\
+  (2 * t <= lenN data + 512)%N /\
+  (hevc_arrs_units (hr_arrays r) + lenN dropped <= t)%N /\
+  (hevc_arrs_bytes (hr_arrays r) + cr_bytes dropped <= lenN data)%N /\
+  (e = false -> dropped = [] /\ (23 + hevc_arrs_cost (hr_arrays r) <= lenN data)%N).
+
+Lemma hevc_full_bounds_nil data r : hr_arrays r = [] -> hevc_full_bounds data r true 0 [].
+Proof.
+  intros Hr. unfold hevc_full_bounds. rewrite Hr.
+  change (hevc_arrs_units []) with 0%N. change (hevc_arrs_bytes []) with 0%N.
+  change (cr_bytes []) with 0%N. change (@lenN (list N) []) with 0%N.
+  change (@lenN (N * list (list N)) []) with 0%N.
+  repeat split; try lia; try discriminate.
+Qed.
+
+Ltac fsr_rd lem Hw v s' Hw' Hp' He' :=
+  match type of Hw with
+  | fsr_wf ?d ?s =>
+      destruct (lem d s Hw) as (v & s' & -> & Hw' & Hp' & He'); cbn [rbind]
+  end.
+
+Lemma hevc_full_total data :
+  exists r e t dropped,
+    hevc_decode_full data = Ok (r, e, t, dropped) /\ hevc_full_bounds data r e t dropped.
+Proof.
+  unfold hevc_decode_full.
+  assert (Hw0 : fsr_wf data fsr_init).
+  { unfold fsr_wf, fsr_init. cbn [fs_pos]. pose proof (cr_len_nonneg data). lia. }
+  assert (Hq0 : fs_pos fsr_init = 0) by reflexivity.
+  fsr_rd fsr_read_u8_ok Hw0 ver s1 Hw1 Hp1 He1.
+  destruct (negb (ver =? 1)%N).
+  { eexists _, _, _, _. split; [reflexivity|]. apply hevc_full_bounds_nil. reflexivity. }
+  fsr_rd fsr_read_u8_ok Hw1 a s2 Hw2 Hp2 He2.
+  fsr_rd fsr_read_u32_ok Hw2 compat s3 Hw3 Hp3 He3.
+  fsr_rd fsr_read_u32_ok Hw3 chi s4 Hw4 Hp4 He4.
+  fsr_rd fsr_read_u16_ok Hw4 clo s5 Hw5 Hp5 He5.
+  fsr_rd fsr_read_u8_ok Hw5 level s6 Hw6 Hp6 He6.
+  fsr_rd fsr_read_u16_ok Hw6 mss s7 Hw7 Hp7 He7.
+  fsr_rd fsr_read_u8_ok Hw7 par s8 Hw8 Hp8 He8.
+  fsr_rd fsr_read_u8_ok Hw8 chroma s9 Hw9 Hp9 He9.
+  fsr_rd fsr_read_u8_ok Hw9 bdl s10 Hw10 Hp10 He10.
+  fsr_rd fsr_read_u8_ok Hw10 bdc s11 Hw11 Hp11 He11.
+  fsr_rd fsr_read_u16_ok Hw11 afr s12 Hw12 Hp12 He12.
+  fsr_rd fsr_read_u8_ok Hw12 b s13 Hw13 Hp13 He13.
+  destruct (negb (N.land b 3 =? 3)%N).
+  { eexists _, _, _, _. split; [reflexivity|]. apply hevc_full_bounds_nil. reflexivity. }
+  fsr_rd fsr_read_u8_ok Hw13 na s14 Hw14 Hp14 He14.
+  destruct (hevc_array_loop_total hevc_array_fuel data 0 (Z.of_N (u8 na)) s14 [] 0%N Hw14)
+    as (early & s' & arrs & t & dropped & -> & Hw' & Hp' & He' & Hearly & Hdrop & Ht & Hk & Hc & Hb & Hu & Hn).
+  { unfold hevc_array_fuel, u8. lia. }
+  cbn [rbind].
+  eexists _, _, _, _. split; [reflexivity|].
+  unfold hevc_full_bounds. cbn [hr_arrays].
+  rewrite lenN_rev, hevc_arrs_units_rev, hevc_arrs_bytes_rev, hevc_arrs_cost_rev.
+  change (hevc_arrs_units []) with 0%N in Hu. change (hevc_arrs_bytes []) with 0%N in Hb.
+  change (hevc_arrs_cost []) with 0%N in Hc. change (@lenN (N * list (list N)) []) with 0%N in Hn.
+  assert (Hna : Z.of_N (u8 na) <= 255) by (unfold u8; lia).
+  assert (Hbe : b2z early <= 1) by (destruct early; cbn [b2z]; lia).
+  unfold fsr_wf in *. rewrite cr_len_lenN in *.
+  repeat split; try lia.
+  - destruct early; [|apply Hdrop; reflexivity].
+    rewrite (Hearly eq_refl) in H. discriminate.
+  - specialize (Hc H). pose proof (He' H) as E14.
+    repeat match goal with
+           | E : fs_err ?s = false, H2 : fs_err ?s = false -> _ /\ _ |- _ =>
+               let E' := fresh "E" in let Q := fresh "Q" in destruct (H2 E) as [E' Q]; clear H2
+           end.
+    lia.
+Qed.
+
+Lemma hevc_confrec_total data :
+  hevc_decode_dec_conf_rec data = Err \/
+  exists r t, hevc_decode_dec_conf_rec data = Ok (r, t) /\
+    (lenN (hr_arrays r) <= 255)%N /\ (2 * t <= lenN data + 512)%N /\
+    (hevc_arrs_units (hr_arrays r) <= t)%N /\
+    (23 + hevc_arrs_cost (hr_arrays r) <= lenN data)%N.
+Proof.
+  unfold hevc_decode_dec_conf_rec.
+  destruct (hevc_full_total data) as (r & e & t & dropped & -> & Hl & Ht & Hu & Hb & He).
+  cbn [rbind]. destruct e; [left; reflexivity|].
+  right. exists r, t. split; [reflexivity|].
+  destruct (He eq_refl) as (-> & Hc). change (@lenN (list N) []) with 0%N in Hu.
+  repeat split; try lia.
+Qed.
+
+(* The number of arrays is NOT bounded by the input length: 23 bytes announcing 255 arrays give 255
+   (empty) arrays, returned together with the read error.  255 is the bound (hevc_full_bounds). *)
+Lemma hevc_arrays_le_len_refuted :
+  exists data r e t d, hevc_decode_full data = Ok (r, e, t, d) /\ e = true /\
+    (lenN data = 23)%N /\ (lenN (hr_arrays r) = 255)%N.
+Proof.
+  exists [1;0;0;0;0;0;0;0;0;0;0;0;0;0;0;0;0;0;0;0;0;3;255]%N.
+  eexists _, _, _, _. split; [vm_compute; reflexivity|]. split; [reflexivity|]. split; reflexivity.
+Qed.
+
+(* ================================================================== av1 *)
+Lemma av1_confrec_total data :
+  av1_decode_codec_conf_rec data = Err \/
+  exists r, av1_decode_codec_conf_rec data = Ok r /\ (4 + lenN (av_config_obus r) = lenN data)%N.
+Proof.
+  unfold av1_decode_codec_conf_rec.
+  destruct (cr_len data <? 4) eqn:H4; [left; reflexivity|].
+  destruct (cr_idx_ok data 0) as (b0 & ->); [lia|]. cbn [rbind].
+  destruct (negb (N.shiftr b0 7 =? 1)%N); [left; reflexivity|].
+  destruct (negb (N.land b0 127 =? 1)%N); [left; reflexivity|].
+  destruct (cr_idx_ok data 1) as (b1 & ->); [lia|]. cbn [rbind].
+  destruct (cr_idx_ok data 2) as (b2 & ->); [lia|]. cbn [rbind].
+  destruct (cr_idx_ok data 3) as (b3 & ->); [lia|]. cbn [rbind].
+  destruct (negb (N.shiftr b3 5 =? 0)%N); [left; reflexivity|].
+  destruct (negb (N.land (N.shiftr b3 4) 1 =? 1)%N && negb (N.land b3 15 =? 0)%N); [left; reflexivity|].
+  destruct (cr_len data >? 4) eqn:Hg.
+  - destruct (cr_slice_ok data 4 (cr_len data)) as (obus & -> & Hl); try lia. cbn [rbind].
+    right. eexists. split; [reflexivity|]. cbn [av_config_obus].
+    rewrite cr_len_lenN in *. unfold lenN in *. lia.
+  - cbn [rbind]. right. eexists. split; [reflexivity|]. cbn [av_config_obus].
+    rewrite cr_len_lenN in *. change (@lenN N []) with 0%N. lia.
+Qed.
